@@ -1690,6 +1690,11 @@ def generate(unit_path, repo=REPO, inline=()):
                             nm = d2.split()
                             ann = dict(attr=[], loops={}, loopend={}, loopstart={}, preloop={}, postloop={}, before=[], ret=dict(re.findall(r'(ret)=(\S+)', d2)).get('ret'), nested={})
                             top_ann['nested'][nm[1]] = ann
+                        elif d2.startswith('also '):
+                            # //@also NEWNAME props=.. requires=`EXPR`: a second copy of this function under another name, with an
+                            # extra precondition, checked against the same annotations (a specialisation for other properties)
+                            ma = re.match(r'also\s+([A-Za-z_0-9]+)\s+props=(\S+)\s+requires=`(.*)`', d2)
+                            top_ann.setdefault('also', []).append((ma.group(1), ma.group(2).split(','), ma.group(3)))
                         elif d2.startswith('closure '):
                             section = 'closure'
                             sect_arg = int(d2.split()[1])
@@ -1853,6 +1858,13 @@ def generate(unit_path, repo=REPO, inline=()):
                 items.append(dict(file=file, path=ipath, sha256=sha(raw), rewrites=[dict(rule=r, count=c) for r, c in log if r != 'LOST-ANCHOR'], lost=[x for r, c in log if r == 'LOST-ANCHOR' for x in c],
                                   lines=[src.count('\n', 0, it['start']) + 1, src.count('\n', 0, it['end']) + 1], props=props, kind=it['kind']))
                 emit(text, 'item', ipath, props)
+                for (nn, nprops, nreq) in (top_ann.get('also') or []):
+                    fm_ = re.search(r'\bfn\s+([A-Za-z_0-9]+)', text)
+                    t2 = text[:fm_.start(1)] + nn + text[fm_.end(1):]
+                    t2 = re.sub(r'\brequires\b', 'requires ' + nreq + ',', t2, count=1)
+                    items.append(dict(file=file, path=ipath + ' [as ' + nn + ']', sha256=sha(raw), rewrites=[dict(rule='ALSO:' + nn, count=1)], lost=[],
+                                      lines=[src.count('\n', 0, it['start']) + 1, src.count('\n', 0, it['end']) + 1], props=nprops, kind=it['kind']))
+                    emit(t2, 'item', ipath + ' [as ' + nn + ']', nprops)
             else:
                 raise Unsupported('unknown directive: %s' % d)
         else:
